@@ -220,6 +220,22 @@ def run(ctx):
         visit(normal, [])
         ctx.floor(r_filter, yields, 3, "yield sites")
 
+    # ---------------- the Equals shortcut is the only way the reference itself is returned: it must serve every positive Equals
+    import formula as _f
+    eqs = [n for n in walk(nxt.body) if n.get("k") == "if" and strip(n["cond"]).get("k") == "letexpr" and "Equals" in strip(n["cond"])["pat"]["s"]]
+    r_self.hit("equals-shortcut")
+    if len(eqs) != 1:
+        ctx.anchor_missing(r_self, "`if let TextSelectionOperator::Equals {..} = self.operator` in next_textselection")
+    else:
+        pat = strip(eqs[0]["cond"])["pat"]
+        for allv in (False, True):
+            for neg in (False, True):
+                got = _f.match_pat(pat, OpVal("Equals", {"all": allv, "negate": neg}), {})
+                if got != (not neg):
+                    ctx.report(r_self, "equals-shortcut:all=%s,negate=%s" % (fmt(allv), fmt(neg)), "the Equals shortcut of next_textselection %s Equals{all:%s,negate:%s}: %s" % (
+                        "does not take" if not got else "takes", fmt(allv), fmt(neg),
+                        "that operator value goes through the general path, whose self-exclusion removes the one selection that is equal (the search returns nothing)" if not got else "a negated Equals must go through the general path"), nxt.file, eqs[0].get("l"))
+
     # ---------------- ONCE
     r_once = ctx.rule("C06.ONCE", "operators that open one candidate iterator per reference item de-duplicate what they yield")
     per_ref = []
